@@ -68,18 +68,38 @@ pub fn exec(toks: &[&str]) -> String {
     if ders.is_empty() { return "bad-op".into() }
     let (last, issuers) = ders.split_last().unwrap();
     let Ok(cert) = Cert::decode(Bytes::from(last.clone())) else { return "err".into() };
+    // every public entry point that decides the same question must give the same verdict: the one-step
+    // `validate_*_at`, the two steps `inspect_*` + `verify_*_at`, and for trust anchors the by-reference variant
+    fn alt(main_ok: bool, other_ok: bool, name: &str) -> String { if main_ok != other_ok { format!(" ALT={}", name) } else { String::new() } }
     if kind == "ta" {
-        return match cert.validate_ta_at(TalInfo::from_name("t".into()).into_arc(), true, time(now)) {
-            Ok(rc) => show_rc(&rc),
-            Err(_) => "err".into(),
+        let tal = || TalInfo::from_name("t".into()).into_arc();
+        let two = cert.inspect_ta(true).is_ok() && cert.clone().verify_ta_at(tal(), true, time(now)).is_ok();
+        let by_ref = cert.inspect_ta(true).is_ok() && cert.verify_ta_ref_at(true, time(now)).is_ok();
+        let main = cert.validate_ta_at(tal(), true, time(now));
+        let extra = format!("{}{}", alt(main.is_ok(), two, "inspect_ta+verify_ta_at"), alt(main.is_ok(), by_ref, "inspect_ta+verify_ta_ref_at"));
+        return match main {
+            Ok(rc) => format!("{}{}", show_rc(&rc), extra),
+            Err(_) => format!("err{}", extra),
         };
     }
     let Some(issuer) = issuer_chain(issuers) else { return "issuer-invalid".into() };
     match kind {
-        "ca" => match cert.validate_ca_at(&issuer, true, time(now)) { Ok(rc) => show_rc(&rc), Err(_) => "err".into() },
-        "ee" => match cert.validate_ee_at(&issuer, true, time(now)) { Ok(rc) => show_rc(&rc), Err(_) => "err".into() },
-        "dee" => match cert.validate_detached_ee_at(&issuer, true, time(now)) { Ok(rc) => show_rc(&rc), Err(_) => "err".into() },
-        "rt" => match cert.validate_router_at(&issuer, true, time(now)) { Ok(()) => "ok".into(), Err(_) => "err".into() },
+        "ca" => {
+            let two = cert.inspect_ca(true).is_ok() && cert.clone().verify_ca_at(&issuer, true, time(now)).is_ok();
+            match cert.validate_ca_at(&issuer, true, time(now)) { Ok(rc) => format!("{}{}", show_rc(&rc), alt(true, two, "inspect_ca+verify_ca_at")), Err(_) => format!("err{}", alt(false, two, "inspect_ca+verify_ca_at")) }
+        }
+        "ee" => {
+            let two = cert.inspect_ee(true).is_ok() && cert.clone().verify_ee_at(&issuer, true, time(now)).is_ok();
+            match cert.validate_ee_at(&issuer, true, time(now)) { Ok(rc) => format!("{}{}", show_rc(&rc), alt(true, two, "inspect_ee+verify_ee_at")), Err(_) => format!("err{}", alt(false, two, "inspect_ee+verify_ee_at")) }
+        }
+        "dee" => {
+            let two = cert.inspect_detached_ee(true).is_ok() && cert.clone().verify_ee_at(&issuer, true, time(now)).is_ok();
+            match cert.validate_detached_ee_at(&issuer, true, time(now)) { Ok(rc) => format!("{}{}", show_rc(&rc), alt(true, two, "inspect_detached_ee+verify_ee_at")), Err(_) => format!("err{}", alt(false, two, "inspect_detached_ee+verify_ee_at")) }
+        }
+        "rt" => {
+            let two = cert.inspect_router(true).is_ok() && cert.verify_router_at(&issuer, true, time(now)).is_ok();
+            match cert.validate_router_at(&issuer, true, time(now)) { Ok(()) => format!("ok{}", alt(true, two, "inspect_router+verify_router_at")), Err(_) => format!("err{}", alt(false, two, "inspect_router+verify_router_at")) }
+        }
         _ => "bad-op".into(),
     }
 }
